@@ -39,7 +39,7 @@ broadcast use vstd::layout::layout_of_primitives;
 pub uninterp spec fn panics_allowed() -> bool;
 
 #[verifier::external_body]
-pub fn controlled_panic() -> !
+pub const fn controlled_panic() -> !
     requires panics_allowed(),
 {
     loop {}
@@ -82,7 +82,7 @@ pub open spec fn prov_end(p: Provenance) -> int { prov_base(p) + prov_bytes(p).l
 /// Rust guarantee for every allocation: at most isize::MAX bytes, no address wrap.
 pub open spec fn in_prov(p: Provenance, addr: int, len: int) -> bool {
     prov_base(p) <= addr && len >= 0 && addr + len <= prov_end(p)
-    && 0 <= prov_base(p) && prov_bytes(p).len() <= 0x7fff_ffff_ffff_ffff && prov_end(p) <= usize::MAX
+    && 0 < prov_base(p) && prov_bytes(p).len() <= 0x7fff_ffff_ffff_ffff && prov_end(p) <= usize::MAX
 }
 pub open spec fn mem_at(p: Provenance, addr: int, len: int) -> Seq<u8> {
     prov_bytes(p).subrange(addr - prov_base(p), addr - prov_base(p) + len)
@@ -146,6 +146,12 @@ pub assume_specification<T>[<*const T>::sub](p: *const T, n: usize) -> (r: *cons
         prov_base(p@.provenance) <= p@.addr - n <= prov_end(p@.provenance),
     ensures r@.addr == p@.addr - n, r@.provenance == p@.provenance;
 
+pub assume_specification<T>[<*const T>::offset](p: *const T, n: isize) -> (r: *const T)
+    requires
+        size_of::<T>() == 1,
+        prov_base(p@.provenance) <= p@.addr + n <= prov_end(p@.provenance),
+    ensures r@.addr == p@.addr + n, r@.provenance == p@.provenance;
+
 pub assume_specification<T: core::marker::PointeeSized, U>[<*const T>::cast::<U>](p: *const T) -> (r: *const U)
     ensures r@.addr == p@.addr, r@.provenance == p@.provenance;
 
@@ -181,6 +187,23 @@ pub fn deref_raw<'a, T>(p: *const T) -> (r: &'a T)
         *r == decode::<T>(mem_at(p@.provenance, p@.addr as int, size_of::<T>() as int)),
 {
     unsafe { &*p }
+}
+
+/// `p.as_ref().unwrap()` for a thin pointer (explicit rewrite at the site):
+/// null is a controlled panic; anything else is a dereference.
+#[verifier::external_body]
+pub fn ptr_as_ref_unwrap<'a, T>(p: *const T) -> (r: &'a T)
+    requires
+        panics_allowed() || p@.addr != 0,
+        p@.addr != 0 ==> in_prov(p@.provenance, p@.addr as int, size_of::<T>() as int) && ptr_aligned::<T>(p@.addr as int),
+    ensures
+        p@.addr != 0,
+        ref_addr(r) == p@.addr,
+        ref_prov(r) == p@.provenance,
+        val_size(r) == size_of::<T>(),
+        *r == decode::<T>(mem_at(p@.provenance, p@.addr as int, size_of::<T>() as int)),
+{
+    unsafe { p.as_ref().unwrap() }
 }
 
 /// `*p` (read through a thin pointer).
